@@ -3,6 +3,6 @@ SPECIFICATION Spec
 CONSTANTS
   Qids = {1, 2}
   MaxLen = 2
-  Programs = {"pass", "twice", "short", "newmsg", "callerr"}
+  Programs = {"pass", "twice", "short", "newmsg", "callerr", "hedge"}
 INVARIANTS Inv
 CHECK_DEADLOCK FALSE
